@@ -303,7 +303,9 @@ def finish(ctx, gen_report, ob, corr_ok, disagreements, failing, checker_cmd, as
     lines = []
     rc = 0
     gen_missing = [(f, m) for f, ms in gen_report.items() for m in ms]
-    obligations_ok = (not ob["broken"]) and not gen_missing
+    # fail-closed translation shows up as a Coq build failure of whatever depends on the missing definition; a missing
+    # definition nothing of this property depends on (another property's generated file) is only recorded
+    obligations_ok = not ob["broken"]
     new_fail, known_hit = [], {}
     for fi in failing:
         hit = None
